@@ -17,8 +17,9 @@ def rtxForm (h : Hdr) (pl : List Nat) (rtxSsrc rtxPt k : Nat) : Pkt :=
                     paddingSize := if h.padding then 0 else h.paddingSize },
     payload := be16 h.seq ++ dropPadding h pl }
 
-/-- legacy padding is well formed: the count byte exists and does not exceed the payload. -/
-def PaddingWF (h : Hdr) (pl : List Nat) : Prop :=
-  h.padding = true → h.paddingSize = 0 → pl ≠ [] ∧ pl.getLastD 0 ≤ pl.length
+/-- the legacy padding count (last payload byte; none for an empty payload) does not exceed the
+payload it is part of.  A packet violating this is not a valid RTP packet; `NewPacket` refuses it. -/
+def PaddingFits (h : Hdr) (pl : List Nat) : Prop :=
+  h.padding = true → h.paddingSize = 0 → pl.getLastD 0 ≤ pl.length
 
 end Interceptor.RtpBuffer
